@@ -16,6 +16,9 @@
                                           type_info.go that assigns expected types to nested values)
     graphql/validator/validate_arguments.go  unknown / duplicate / missing required arguments
     graphql/executor/executor.go:313-330  executeField: coercion error ⇒ field error, resolver not called
+    graphql/executor/executor.go:494-507  collectFieldsImpl: a directive's coercion error is reported and the
+                                          selection left out (patch 05)
+    graphql/validator/validator.go:67-95  additional rules (ValidateCost) only on valid documents (patch 06)
 
   Numbers are exact: a JSON number or a float is the integer `h` standing for `h/2` (all generated
   numbers are integers or halves; no Lean `Float` anywhere). Go maps are association lists; the
